@@ -90,7 +90,11 @@ func implObj(f []string) string {
 	}
 	var out []string
 	for _, p := range ol.Value {
-		out = append(out, p.Kind+":"+astx.Hex(p.Key))
+		e := p.Kind + ":" + astx.Hex(p.Key)
+		if fl, ok := p.Value.(*ast.FunctionLiteral); ok && p.Kind != "value" {
+			e += ":" + astx.Hex(fl.Source) // the source text of the accessor, as for every other function literal
+		}
+		out = append(out, e)
 	}
 	return strings.Join(out, ",")
 }
